@@ -317,7 +317,8 @@ def _replay_obj(events, pos, why, scen_line):
         "reports": [{"aircraft": e["ac"], "t_s": e["ts"] / 1000.0, "frame": e["hex"],
                      "kind": "surface" if e["kind"] else "airborne", "parity": e["par"],
                      "true_position_deg": [round(e["L"] * deg, 6), round(e["M"] * deg, 6)],
-                     "answer": e["inter"], "answer_alone": e["iso"], "answer_batch": e["batch"]}
+                     "answer": e["inter"], "answer_alone": e["iso"], "answer_batch": e["batch"],
+                     "answer_on_epoch_time_base": e.get("epoch")}
                     for e in events[1:]],
         "rejected_report": pos, "rejected_because": why,
         "explain": "decode_position was fed the frames in this order with the fixed receiver reference and "
